@@ -29,10 +29,73 @@ func checkHostArgs(p *core.Prog, r *core.Report, rule string) {
 			params[prm.Name()] = prm
 		}
 		var storeCalls []*ssa.Call
+		readIdx := map[*ssa.Call]ssa.Value{} // for a read: the index into inputStores
+		// inputStoreIndex: v is inputStores[i] — directly, or as the result of a helper of the package whose every return is
+		// inputStores[<its parameter>] — and i is returned (mapped back to the caller's argument)
+		inputStoreIndex := func(v ssa.Value) (ssa.Value, bool) {
+			if u, ok := v.(*ssa.UnOp); ok {
+				if ia, ok := u.X.(*ssa.IndexAddr); ok {
+					if f, _ := core.LoadedField(ia.X); f == inF {
+						return ia.Index, true
+					}
+				}
+				return nil, false
+			}
+			hc, ok := v.(*ssa.Call)
+			if !ok {
+				return nil, false
+			}
+			h := core.StaticFn(hc.Common())
+			if h == nil || h.Blocks == nil || h.Pkg != fn.Pkg {
+				return nil, false
+			}
+			var arg ssa.Value
+			okAll, nRet := true, 0
+			core.Instrs(h, func(x ssa.Instruction) {
+				rt, isRet := x.(*ssa.Return)
+				if !isRet || len(rt.Results) != 1 || rt.Block() == h.Recover {
+					return
+				}
+				nRet++
+				u, ok := core.SkipConv(rt.Results[0]).(*ssa.UnOp)
+				if mi, isMI := rt.Results[0].(*ssa.MakeInterface); isMI {
+					u, ok = mi.X.(*ssa.UnOp)
+				}
+				if !ok {
+					okAll = false
+					return
+				}
+				ia, ok := u.X.(*ssa.IndexAddr)
+				if !ok {
+					okAll = false
+					return
+				}
+				if f, _ := core.LoadedField(ia.X); f != inF {
+					okAll = false
+					return
+				}
+				for j, prm := range h.Params {
+					if core.SkipConv(ia.Index) == ssa.Value(prm) && j < len(hc.Call.Args) {
+						arg = hc.Call.Args[j]
+					}
+				}
+			})
+			if okAll && nRet > 0 && arg != nil {
+				return arg, true
+			}
+			return nil, false
+		}
 		core.Instrs(fn, func(in ssa.Instruction) {
 			c, ok := in.(*ssa.Call)
 			if !ok || !c.Call.IsInvoke() {
 				return
+			}
+			if idx, ok := inputStoreIndex(c.Call.Value); ok {
+				if _, direct := c.Call.Value.(*ssa.UnOp); !direct {
+					storeCalls = append(storeCalls, c)
+					readIdx[c] = idx
+					return
+				}
 			}
 			switch v := c.Call.Value.(type) {
 			case *ssa.UnOp:
@@ -69,6 +132,12 @@ func checkHostArgs(p *core.Prog, r *core.Report, rule string) {
 					if params["storeIndex"] == nil || core.SkipConv(ia.Index) != ssa.Value(params["storeIndex"]) {
 						bad += "the store read is not inputStores[storeIndex]; "
 					}
+				}
+			}
+			if idx, viaHelper := readIdx[c]; viaHelper {
+				isRead = true
+				if params["storeIndex"] == nil || core.SkipConv(idx) != ssa.Value(params["storeIndex"]) {
+					bad += "the store read is not inputStores[storeIndex]; "
 				}
 			}
 			// positional forwarding: (ord)?, key|prefix, then for writes the value
